@@ -41,7 +41,7 @@ def and_(*xs):
         es.append(e)
     if not es:
         return True
-    return mk_bool(z3.And(*es)) if len(es) > 1 else mk_bool(es[0])
+    return SymBool(z3.And(*es)) if len(es) > 1 else SymBool(es[0])
 
 
 def or_(*xs):
@@ -57,7 +57,7 @@ def or_(*xs):
         es.append(e)
     if not es:
         return False
-    return mk_bool(z3.Or(*es)) if len(es) > 1 else mk_bool(es[0])
+    return SymBool(z3.Or(*es)) if len(es) > 1 else SymBool(es[0])
 
 
 def not_(x):
